@@ -149,4 +149,21 @@ PROPS = {
         assumptions=["the aliased buffer is the very same pointer with the same stride; it holds live (stale) data beyond "
                      "the aliased operand's limb count", "bitwise equality with the out-of-place call (same kernel runs)", ASAN_NOTE],
     ),
+    "C11": dict(
+        runs=plan([dict(cfg="asan", parts=16),
+                   dict(cfg="asan", parts=4, mode="leaks", env={"ASAN_OPTIONS": "abort_on_error=1:detect_leaks=1:leak_check_at_exit=0:allocator_may_return_null=1:handle_abort=0"}),
+                   dict(cfg="plain", parts=8, mode="memcheck", wrapper=["valgrind", "-q", "--error-exitcode=97", "--errors-for-leak-kinds=none"], timeout=1800)],
+                  [dict(cfg="asan", parts=16),
+                   dict(cfg="asan", parts=4, mode="leaks", env={"ASAN_OPTIONS": "abort_on_error=1:detect_leaks=1:leak_check_at_exit=0:allocator_may_return_null=1:handle_abort=0"}),
+                   dict(cfg="plain", parts=16, mode="memcheck", wrapper=["valgrind", "-q", "--error-exitcode=97", "--errors-for-leak-kinds=none"], timeout=7200)]),
+        rule=("case = one catalogue entry point executed twice with the same arguments and two different pre-fills of "
+              "its output and scratch buffers (entry point, N, dispatch, seed -> shape, strides, operands), or one "
+              "new/delete cycle batch; distinct by descriptor hash; non-trivial when at least one buffer is non-empty "
+              "(zero-size classes are counted separately in shape:*)"),
+        require={"all": ["instrumented_calls", "scratch_bytes_exact", "object_cycles", "leak_check_rounds",
+                         "memcheck_definedness_checks"]},
+        assumptions=["every buffer is allocated at exactly the documented size (bytes_of_*, *_tmp_bytes) between "
+                     "ASan-poisoned, canary-filled guard bands; misalignments are multiples of 8 bytes (16 for __int128)",
+                     "red-zone tools do not see intra-object overflows; memcheck cannot run AVX-512 code", ASAN_NOTE],
+    ),
 }
